@@ -98,3 +98,147 @@ def rebuilds(statements):
                        .strip('"'))
             pending = False
     return out
+
+
+# ---------------------------------------------------------------- D2/D3/D4
+
+_baseline_cache = {}
+
+
+def baseline(project, rows=None, evolutions=None, extra_key=''):
+    """Database image after a *fresh install* of `project` through the real
+    Evolver (creates the django_evolution tables, all model tables, records
+    the whole SEQUENCE as applied).  Cached per (project, rows)."""
+    from vf import spec as S, materialize as MZ, bootstrap as B, rows as RW
+    key = S.canon(project) + '|' + str(rows) + '|' + extra_key
+    img = _baseline_cache.get(key)
+    if img is not None:
+        return img
+    from django_evolution.evolve import Evolver
+    MZ.install(project, evolutions=evolutions)
+    B.fresh_db('default')
+    B.reset_globals()
+    ev = Evolver()
+    ev.queue_evolve_all_apps()
+    ev.evolve()
+    if rows:
+        RW.populate(project, rows, 'default')
+    img = B.snapshot('default')
+    if len(_baseline_cache) > 500:
+        _baseline_cache.clear()
+    _baseline_cache[key] = img
+    return img
+
+
+def stored_signature(db='default'):
+    from django_evolution.models import Version
+    return Version.objects.using(db).order_by('-id')[0].signature
+
+
+def d2(app_label, evolutions, db='default', tracer=None, hinted=False):
+    """Evolver + EvolveAppTask with in-memory custom evolutions
+    ([{'label':..., 'mutations': [...]}]); the production path including
+    prepare() followed by _build_batches().  The current (target) models
+    must already be installed."""
+    from django_evolution.compat.apps import get_app
+    from django_evolution.evolve import Evolver, EvolveAppTask
+    res = RunResult()
+    tracer = tracer or O.Tracer(db)
+    res.stage = 'prepare'
+    try:
+        with tracer.active():
+            ev = Evolver(database_name=db, hinted=hinted)
+            task = EvolveAppTask(ev, get_app(app_label),
+                                 evolutions=evolutions)
+            ev.queue_task(task)
+            ev._prepare_tasks()
+            res.stage = 'execute'
+            ev.evolve()
+        res.ok = True
+        res.sig = ev.project_sig
+    except Exception as e:  # noqa
+        res.exc = e
+        res.exc_type = type(e).__name__
+        _abort_transactions(db)
+    res.statements = tracer.effects()
+    return res
+
+
+def d2_all(db='default', tracer=None, apps=None):
+    """Evolver.queue_evolve_all_apps() (or the given app labels) + evolve(),
+    evolutions discovered the normal way."""
+    from django_evolution.compat.apps import get_app
+    from django_evolution.evolve import Evolver
+    res = RunResult()
+    tracer = tracer or O.Tracer(db)
+    res.stage = 'prepare'
+    try:
+        with tracer.active():
+            ev = Evolver(database_name=db)
+            if apps is None:
+                ev.queue_evolve_all_apps()
+            else:
+                for label in apps:
+                    ev.queue_evolve_app(get_app(label))
+            res.required = ev.get_evolution_required()
+            res.stage = 'execute'
+            ev.evolve()
+        res.ok = True
+        res.sig = ev.project_sig
+        res.evolver = ev
+    except Exception as e:  # noqa
+        res.exc = e
+        res.exc_type = type(e).__name__
+        _abort_transactions(db)
+    res.statements = tracer.effects()
+    return res
+
+
+def d3(db='default', tracer=None, **opts):
+    """`evolve` management command (--execute --noinput by default)."""
+    import io
+    from django.core.management import call_command
+    res = RunResult()
+    tracer = tracer or O.Tracer(db)
+    out, err = io.StringIO(), io.StringIO()
+    kw = dict(execute=True, interactive=False, database=db, verbosity=0,
+              stdout=out, stderr=err)
+    kw.update(opts)
+    res.stage = 'command'
+    try:
+        with tracer.active():
+            call_command('evolve', **kw)
+        res.ok = True
+    except BaseException as e:  # CommandError / SystemExit
+        res.exc = e
+        res.exc_type = type(e).__name__
+        _abort_transactions(db)
+    res.stdout = out.getvalue()
+    res.stderr = err.getvalue()
+    res.statements = tracer.effects()
+    return res
+
+
+def d4(db='default', tracer=None, **opts):
+    """the replaced `migrate` command."""
+    import io
+    from django.core.management import call_command
+    res = RunResult()
+    tracer = tracer or O.Tracer(db)
+    out, err = io.StringIO(), io.StringIO()
+    kw = dict(interactive=False, database=db, verbosity=0, stdout=out,
+              stderr=err)
+    kw.update(opts)
+    res.stage = 'command'
+    try:
+        with tracer.active():
+            call_command('migrate', **kw)
+        res.ok = True
+    except BaseException as e:
+        res.exc = e
+        res.exc_type = type(e).__name__
+        _abort_transactions(db)
+    res.stdout = out.getvalue()
+    res.stderr = err.getvalue()
+    res.statements = tracer.effects()
+    return res
